@@ -1,7 +1,7 @@
 SPECIFICATION Spec
 CONSTANTS
   Nm = {"a", "b", "l"}
-  MaxOps = 4
+  MaxOps = 3
   MaxIno = 7
 INVARIANTS TreeOK FailClean WalkOK SizeOK
 CHECK_DEADLOCK FALSE
